@@ -483,6 +483,13 @@ func (t *ftr) ex(e ast.Expr, c fctx) string {
 				return wrapInt(ty.bits, "Int.tdiv "+a+" "+b)
 			case token.REM:
 				return "(Int.tmod " + a + " " + b + ")"
+			case token.AND:
+				// two's complement: a & (2^k - 1) is a mod 2^k for every integer a
+				if tvy := t.p.info.Types[unparen(x.Y)]; tvy.Value != nil {
+					if m, ok := constant.Int64Val(constant.ToInt(tvy.Value)); ok && m > 0 && (m+1)&m == 0 {
+						return fmt.Sprintf("(%s %% %d)", a, m+1)
+					}
+				}
 			}
 			return t.fail(e, "signed operator %s", x.Op)
 		}
@@ -950,6 +957,33 @@ func (t *ftr) stmts(list []ast.Stmt, c fctx, k func(c fctx) string) string {
 			out, c2 := t.assign(x.Lhs[0], func(ftype) string { return t.ex(x.Rhs[0], c) }, x.Tok == token.DEFINE, c)
 			return out + next(c2)
 		}
+		if op, ok := map[token.Token]token.Token{token.ADD_ASSIGN: token.ADD, token.SUB_ASSIGN: token.SUB, token.OR_ASSIGN: token.OR,
+			token.AND_ASSIGN: token.AND, token.MUL_ASSIGN: token.MUL}[x.Tok]; ok {
+			lty, okT := t.typeOf(unparen(x.Lhs[0]))
+			if okT && lty.k != kBool {
+				a, b := t.ex(x.Lhs[0], c), t.ex(x.Rhs[0], c)
+				var val string
+				m := pow2(lty.bits)
+				switch {
+				case lty.k == kInt && (op == token.ADD || op == token.SUB || op == token.MUL):
+					val = wrapInt(lty.bits, a+" "+op.String()+" "+b)
+				case lty.k == kNat && op == token.ADD:
+					val = fmt.Sprintf("((%s + %s) %% %s)", a, b, m)
+				case lty.k == kNat && op == token.SUB:
+					val = fmt.Sprintf("((%s + %s - %s) %% %s)", a, m, b, m)
+				case lty.k == kNat && op == token.MUL:
+					val = fmt.Sprintf("((%s * %s) %% %s)", a, b, m)
+				case lty.k == kNat && op == token.OR:
+					val = fmt.Sprintf("(%s ||| %s)", a, b)
+				case lty.k == kNat && op == token.AND:
+					val = fmt.Sprintf("(%s &&& %s)", a, b)
+				}
+				if val != "" {
+					out, c2 := t.assign(x.Lhs[0], func(ftype) string { return val }, false, c)
+					return out + next(c2)
+				}
+			}
+		}
 		return c.indent + t.fail(x, "assignment operator %s", x.Tok) + "\n"
 	case *ast.RangeStmt:
 		if t.f.rangeSeen >= len(t.f.rangeConds) {
@@ -1180,6 +1214,13 @@ func (t *ftr) stmts(list []ast.Stmt, c fctx, k func(c fctx) string) string {
 						return t.ret(nil, 3, c)
 					}
 				}
+			}
+			if t.f.errResult && len(x.Results) == 2 {
+				// `return v, nil` = outcome 0 (the value is mantissa/buffer traffic); `return nil, err` = outcome 3
+				if id, ok := unparen(x.Results[1]).(*ast.Ident); ok && id.Name == "nil" {
+					return t.ret(nil, 0, c)
+				}
+				return t.ret(nil, 3, c)
 			}
 			return c.indent + t.fail(x, "return value of a stateful method must be the receiver or a declared opaque call") + "\n"
 		}
@@ -1840,6 +1881,16 @@ func baseFacts() []*fact {
 				{src: "x.fmtE", code: 4, capAll: true},
 				{src: "x.fmtF", code: 5, capAll: true},
 				{src: "append(buf, '%', fmt)", code: 6, capAll: true}}},
+		{lean: "GobEncode", fn: "Decimal.GobEncode", stateful: true, errResult: true, join: true,
+			doc:    "mtrace: 1 = the buffer size, 2 = the version byte, 3 = the attribute byte, 4 = the precision field, 5 = the exponent field, 6 = index of the first mantissa word encoded",
+			params: ps("xNil", "x == nil", "form", "x.form", "prec", "x.prec", "lenMant", "len(x.mant)", "mode", "x.mode", "acc", "x.acc", "neg", "x.neg", "exp", "x.exp"),
+			mops: []*fmop{
+				{src: "buf := make([]byte, sz)", code: 1, args: []string{"sz"}},
+				{src: "buf[0] = decimalGobVersion", code: 2, args: []string{"decimalGobVersion"}},
+				{src: "buf[1] = b", code: 3, args: []string{"b"}},
+				{src: "binary.BigEndian.PutUint32(buf[2:], x.prec)", code: 4, args: []string{"x.prec"}},
+				{src: "binary.BigEndian.PutUint32(buf[6:], uint32(x.exp))", code: 5, args: []string{"uint32(x.exp)"}},
+				{src: "x.mant[len(x.mant) - n:].bytes(buf[10:])", code: 6, args: []string{"len(x.mant) - n"}}}},
 		{lean: "GobDecode", fn: "Decimal.GobDecode", stateful: true, errResult: true, rangeConds: []string{"<some word >= _DB>"}, rangeText: []string{"_, w := range mant | w >= _DB"},
 			doc: "outcome 3 = an error is returned; hdr = buf[1], precU = the precision field, expU = the exponent field, topWord = mant[len(mant)-1], anyBig = some decoded word >= _DB, tz = mant.trailingZeroDigits()",
 			params: append(ps("lenBuf", "len(buf)", "ver", "buf[0]", "hdr", "buf[1]", "precU", "binary.BigEndian.Uint32(buf[2:])",
